@@ -187,6 +187,16 @@ func factsStores() {
 	emitList("storesGetForAppends", "pkg/store/bucket.go bucketBlockSet.getFor: how results are appended (recursive results must go through appendMissingBlocks), in order",
 		callSeq(body(getFor), "append", "appendMissingBlocks"))
 
+	rmAssign := "unknown"
+	ast.Inspect(body(fn(bucket, "bucketBlockSet", "remove")), func(n ast.Node) bool {
+		if a, ok := n.(*ast.AssignStmt); ok && len(a.Lhs) == 1 && text(a.Lhs[0]) == "s.blocks[i]" {
+			rmAssign = text(a)
+		}
+		return true
+	})
+	emitList("storesBlockSetRemove", "pkg/store/bucket.go bucketBlockSet.remove: its statements, flattened (the deletion must keep the order of the remaining blocks)",
+		append([]string{rmAssign}, callSeq(body(fn(bucket, "bucketBlockSet", "remove")), "append", "Lock", "Unlock")...))
+
 	// ---- C08
 	tsdbf := parse("pkg/store/tsdb.go")
 	tser := body(fn(tsdbf, "TSDBStore", "Series"))
